@@ -14,7 +14,7 @@ ASAN  := $(COMMON) -O1 -fsanitize=address -fno-omit-frame-pointer -DSIM_BUILD_NA
 TLS   := $(COMMON) -O1 -DRLBOX_EMBEDDER_PROVIDES_TLS_STATIC_VARIABLES -DSIM_BUILD_NAME='"tls"'
 LIBS := -lpthread -ldl
 
-TARGETS := apptoken mem mem.p64 callback callback.tls invoke toctou toctou.asan bulk bulk.asan transition.hooks transition.timing transition.both threads threads.tsan threads.tls
+TARGETS := apptoken mem mem.p64 callback callback.tls invoke toctou toctou.asan bulk bulk.asan bulk.nogrant transition.hooks transition.timing transition.both threads threads.tsan threads.tls
 
 all: $(addprefix $(B)/,$(TARGETS))
 
@@ -40,6 +40,8 @@ $(B)/toctou.asan: worlds/toctou.cpp $(HDRS) $(SIMH) | $(B)
 
 $(B)/bulk: worlds/bulk.cpp $(HDRS) $(SIMH) | $(B)
 	$(CXX) $(PLAIN) $< -o $@ $(LIBS) -Wl,--wrap=malloc -Wl,--wrap=free
+$(B)/bulk.nogrant: worlds/bulk.cpp $(HDRS) $(SIMH) | $(B)
+	$(CXX) $(PLAIN) -DSIM_NO_GRANT_DENY -DSIM_BUILD_NAME='"nogrant"' $< -o $@ $(LIBS) -Wl,--wrap=malloc -Wl,--wrap=free
 $(B)/bulk.asan: worlds/bulk.cpp $(HDRS) $(SIMH) | $(B)
 	$(CXX) $(ASAN) $< -o $@ $(LIBS) -Wl,--wrap=malloc -Wl,--wrap=free
 
